@@ -253,7 +253,7 @@ func (e *c18Env) pendingAndSettle(step string) error {
 	}
 	owned := e.wd.AllOwned()
 	var coins []*sim.Out
-	for _, o := range v.Outs {
+	for _, o := range v.SortedOuts() {
 		if _, mine := owned[o.Hash]; mine && o.HasHash && !o.Spent && o.Class == sim.ClassStd && v.Mature(o) && o.Value > 200000 {
 			coins = append(coins, o)
 		}
